@@ -79,8 +79,19 @@ def spec_variants():
 
 
 def main(argv):
+    global REPO
     if "--spec" in argv:
         return spec_variants()
+    check_root = ROOT
+    if "--sbx" in argv:
+        # run in the sandbox copy of tools/seed.py (/tmp/sbx): /repo itself is never touched
+        sys.path.insert(0, os.path.join(ROOT, "tools"))
+        import importlib.util
+        spec = importlib.util.spec_from_file_location("seedtool", os.path.join(ROOT, "tools", "seed.py"))
+        seedtool = importlib.util.module_from_spec(spec)
+        spec.loader.exec_module(seedtool)
+        seedtool.sandbox()
+        REPO, check_root = seedtool.SBX_R, seedtool.SBX_V
     baseline = "--baseline" in argv
     tier = "thorough" if "--thorough" in argv else "quick"
     want = [a for a in argv if not a.startswith("--")]
@@ -105,7 +116,7 @@ def main(argv):
         try:
             if baseline:
                 t = time.time()
-                b = subprocess.run("cd /repo && cargo test --workspace --no-fail-fast --offline 2>&1 | tail -40", shell=True,
+                b = subprocess.run("cd %s && cargo test --workspace --no-fail-fast --offline 2>&1 | tail -40" % REPO, shell=True,
                                    stdout=subprocess.PIPE, text=True)
                 okb = "test result: FAILED" not in b.stdout and "error" not in b.stdout.split("test result")[0][-2000:].lower().replace("error.rs", "")
                 entry["baseline_tests_pass"] = okb
@@ -113,8 +124,8 @@ def main(argv):
             killed = False
             for pid in props:
                 t = time.time()
-                p = subprocess.run([os.path.join(ROOT, "check"), pid, "--tier", tier], stdout=subprocess.PIPE,
-                                   stderr=subprocess.STDOUT, text=True, cwd=ROOT)
+                p = subprocess.run([os.path.join(check_root, "check"), pid, "--tier", tier], stdout=subprocess.PIPE,
+                                   stderr=subprocess.STDOUT, text=True, cwd=check_root)
                 vio = [l for l in p.stdout.splitlines() if l.startswith("VIOLATION")]
                 sig = ""
                 if vio:
